@@ -50,4 +50,8 @@ CLAIMED['C19'] = ('DESIGN.md 4/C19', 'calc_surface_energy / get_time_shift_motio
     'records and symbolic reduction factors (SciPy cumulative_trapezoid(axis=1) for real, np.interp model for '
     'fractional delays) and compared cell by cell with an oracle written from the shifted-wave definition; shifting '
     'and joining helpers placed exactly; n<=5, stated travel-time/option/shift-vector sets.')
+CLAIMED['C06'] = ('DESIGN.md 4/C06', 'gen_fa_spectrum / generate_fa_spectrum / calc_fa_spectrum executed with symbolic record AND '
+    'symbolic dt through the DFT-definition stub: N selection, zero padding, bin slice, dt scaling and the frequency '
+    'grid compared bin by bin with an independent DFT oracle (npts<=9, p2_plus<=2, explicit even/odd n), linearity, '
+    'trailing zeros, Parseval, the Hermitian inverse (N<=16) and the dominant-bin selection (quadratic |F|^2 comparisons).')
 NOT_APPLICABLE = {}
